@@ -1,7 +1,10 @@
-(* C08 - "if the motion fails or spans nothing, the operator changes nothing":
-   per text-object family, refuted on the code as it is (vm_compute witnesses,
-   replayed on the real code by the harness), and proved where it holds
-   (case operators on a failed exclusive motion). *)
+(* C08 - "if the motion fails or spans nothing, the operator changes nothing".
+   Since fix f3ffc71 this holds for d, c, y and the case operators on every
+   text object whose failure is an empty EXCLUSIVE object (proved below, per
+   family, from the text-object functions of the model).  It is still false -
+   witnesses below, replayed on the real code by the harness - for the
+   inclusive defaults (e E ge gE g_), for j / k at the buffer boundary
+   (linewise) and for the line operators > < gq on any failed motion. *)
 From Coq Require Import ZArith List Bool Lia.
 From PTK Require Import Lib.Sx Lib.Py Model.Document Model.BufferEdit Model.C02_DocQueries
   Model.C08_ViOps Model.C08_TextObjects Proofs.C08_ViFacts.
@@ -12,16 +15,142 @@ Open Scope Z_scope.
    the text-object function reports failure, text, cursor, clipboard and
    named registers stay as they were and nothing is raised *)
 Definition failed_noop (m : tok) (k : opk) : Prop :=
-  forall text cur n keys o,
+  forall text cur n hc keys o,
     0 <= cur <= len text -> 1 <= n ->
-    text_object m (mkdoc text cur) n = TO o true ->
+    text_object m (mkdoc text cur) n hc = TO o true ->
     let r := run_op k (st_of text cur) o (mkev n keys) in
     fst r = 0 /\ vbuf (snd r) = mkbuf text cur /\ vclip (snd r) = None /\ vreg (snd r) = None.
 
-Ltac refute text cur n o :=
+(* operators that go through TextObject.cut or through the range guard *)
+Definition cut_or_case (k : opk) : Prop :=
+  match k with OpDelete _ _ | OpYank | OpTransform _ => True | _ => False end.
+
+(* an exclusive object with equal ends has an empty range *)
+Lemma operator_range_equal_ends d o :
+  ttype o = EXCL -> tstart o = tend o -> operator_range d o = (tstart o, tstart o).
+Proof.
+  intros Ht He. unfold operator_range, to_sorted. rewrite Ht, <- He.
+  rewrite !Z.ltb_irrefl. cbn [is_excl is_incl is_linew andb]. reflexivity.
+Qed.
+
+Lemma noop_of_empty_excl m :
+  (forall d n hc o, text_object m d n hc = TO o true -> ttype o = EXCL /\ tstart o = tend o) ->
+  forall k, cut_or_case k -> failed_noop m k.
+Proof.
+  intros Hm k Hk text cur n hc keys o Hc _ Ht.
+  destruct (Hm _ _ _ _ Ht) as [Hty Heq].
+  assert (Hl : is_linew (ttype o) = false) by (rewrite Hty; reflexivity).
+  assert (Hr : snd (operator_range (bdoc (vbuf (st_of text cur))) o)
+               <= fst (operator_range (bdoc (vbuf (st_of text cur))) o)).
+  { rewrite operator_range_equal_ends by assumption. cbn [fst snd]. lia. }
+  destruct k as [dl wr| | |f| | |]; try contradiction; cbn [run_op].
+  - rewrite op_delete_empty by (try assumption; cbn [st_of vbuf bcur]; lia).
+    cbn [fst snd st_of vbuf vclip vreg]. repeat split; reflexivity.
+  - rewrite op_yank_empty by assumption.
+    cbn [fst snd st_of vbuf vclip vreg]. repeat split; reflexivity.
+  - rewrite op_transform_empty by exact Hr.
+    cbn [fst snd st_of vbuf vclip vreg]. repeat split; reflexivity.
+Qed.
+
+Lemma excl0_failed v o : excl0 v = TO o true -> ttype o = EXCL /\ tstart o = tend o.
+Proof.
+  unfold excl0. intros H.
+  assert (Hv : (v =? 0) = true) by congruence.
+  assert (Ho : mk1 v = o) by congruence.
+  rewrite <- Ho. cbn [mk1 ttype tstart tend]. split; [reflexivity|lia].
+Qed.
+
+Lemma mk1_0_failed (o : tobj) : TO (mk1 0) true = TO o true -> ttype o = EXCL /\ tstart o = tend o.
+Proof. intros H. assert (Ho : mk1 0 = o) by congruence. rewrite <- Ho. split; reflexivity. Qed.
+
+Lemma if_match_failed m g t o : if_match m g t = TO o true -> ttype o = EXCL /\ tstart o = tend o.
+Proof.
+  unfold if_match. destruct m as [v|].
+  - destruct (v =? 0); intros H; [apply mk1_0_failed; exact H|discriminate].
+  - apply mk1_0_failed.
+Qed.
+
+Ltac fam := apply noop_of_empty_excl; intros d n hc o; cbn [text_object].
+
+Lemma fam_f ch : forall k, cut_or_case k -> failed_noop (T_f ch) k.
+Proof. fam. apply if_match_failed. Qed.
+Lemma fam_t ch : forall k, cut_or_case k -> failed_noop (T_t ch) k.
+Proof. fam. apply if_match_failed. Qed.
+Lemma fam_F ch : forall k, cut_or_case k -> failed_noop (T_F ch) k.
+Proof. fam. apply excl0_failed. Qed.
+Lemma fam_T ch : forall k, cut_or_case k -> failed_noop (T_T ch) k.
+Proof.
+  fam. destruct (dfind_backwards ceq_exact d [ch] true n) as [v|]; [|apply mk1_0_failed].
+  destruct (v =? 0); [apply mk1_0_failed|apply excl0_failed].
+Qed.
+Lemma fam_repeat rev has ch bw : forall k, cut_or_case k -> failed_noop (T_repeat rev has ch bw) k.
+Proof.
+  fam. destruct has; [|apply mk1_0_failed]. destruct (xorb bw rev); apply if_match_failed.
+Qed.
+Lemma fam_b W : forall k, cut_or_case k -> failed_noop (T_b W) k.
+Proof. fam. apply excl0_failed. Qed.
+Lemma fam_w W : forall k, cut_or_case k -> failed_noop (T_w W) k.
+Proof. fam. apply excl0_failed. Qed.
+Lemma fam_h : forall k, cut_or_case k -> failed_noop T_h k.
+Proof. fam. apply excl0_failed. Qed.
+Lemma fam_l : forall k, cut_or_case k -> failed_noop T_l k.
+Proof. fam. apply excl0_failed. Qed.
+Lemma fam_dollar : forall k, cut_or_case k -> failed_noop T_dollar k.
+Proof. fam. apply excl0_failed. Qed.
+Lemma fam_zero : forall k, cut_or_case k -> failed_noop T_zero k.
+Proof. fam. apply excl0_failed. Qed.
+Lemma fam_caret : forall k, cut_or_case k -> failed_noop T_caret k.
+Proof. fam. apply excl0_failed. Qed.
+Lemma fam_bar : forall k, cut_or_case k -> failed_noop T_bar k.
+Proof. fam. apply excl0_failed. Qed.
+Lemma fam_lbrace : forall k, cut_or_case k -> failed_noop T_lbrace k.
+Proof. fam. destruct (start_of_paragraph d n true); [apply excl0_failed|discriminate]. Qed.
+Lemma fam_rbrace : forall k, cut_or_case k -> failed_noop T_rbrace k.
+Proof. fam. destruct (end_of_paragraph d n true); [apply excl0_failed|discriminate]. Qed.
+Lemma fam_percent : forall k, cut_or_case k -> failed_noop T_percent k.
+Proof.
+  fam. destruct hc.
+  - destruct ((0 <? n) && (n <=? 100)); [discriminate|apply mk1_0_failed].
+  - destruct (find_matching_bracket_position d None None =? 0); [apply mk1_0_failed|discriminate].
+Qed.
+Lemma fam_gm : forall k, cut_or_case k -> failed_noop T_gm k.
+Proof. fam. apply mk1_0_failed. Qed.
+Lemma fam_word W tr : forall k, cut_or_case k -> failed_noop (T_word W tr) k.
+Proof.
+  fam. destruct (find_boundaries_of_current_word d W false tr) as [s e]. intros H.
+  assert (Hf : (s =? 0) && (e =? 0) = true) by congruence.
+  assert (Ho : mkto s e EXCL = o) by congruence.
+  rewrite <- Ho. cbn [ttype tstart tend]. split; [reflexivity|].
+  apply andb_true_iff in Hf. lia.
+Qed.
+Lemma fam_ap : forall k, cut_or_case k -> failed_noop T_ap k.
+Proof.
+  fam. destruct (start_of_paragraph d 1 false) as [s|]; [|discriminate].
+  destruct (end_of_paragraph d n false) as [e|]; [|discriminate]. intros H.
+  assert (Hf : (s =? e) = true) by congruence.
+  assert (Ho : mkto s e EXCL = o) by congruence.
+  rewrite <- Ho. cbn [ttype tstart tend]. split; [reflexivity|lia].
+Qed.
+Lemma fam_ci l r inner : forall k, cut_or_case k -> failed_noop (T_ci l r inner) k.
+Proof.
+  fam.
+  destruct (if l =? r
+            then (dfind_backwards ceq_exact d [l] false 1, dfind ceq_exact d [r] false false 1)
+            else (find_enclosing_bracket_left d l r None, find_enclosing_bracket_right d l r None))
+    as [[s|] [e|]]; try apply mk1_0_failed.
+  intros H.
+  assert (Hf : (e + (if inner then 0 else 1) =? s + 1 - (if inner then 0 else 1)) = true) by congruence.
+  assert (Ho : mkto (s + 1 - (if inner then 0 else 1)) (e + (if inner then 0 else 1)) EXCL = o) by congruence.
+  rewrite <- Ho. cbn [ttype tstart tend]. split; [reflexivity|lia].
+Qed.
+
+(* ---------------------------------------------------------------------- *)
+(* Still false *)
+
+Ltac refute text cur n hc o :=
   let H := fresh "H" in
   intro H;
-  specialize (H text cur n (@nil Z) o
+  specialize (H text cur n hc (@nil Z) o
                 ltac:(vm_compute; split; intro; discriminate)
                 ltac:(vm_compute; intro; discriminate)
                 ltac:(vm_compute; reflexivity));
@@ -31,128 +160,30 @@ Ltac refute text cur n o :=
 
 Definition abc_def : str := [97; 98; 99; 32; 100; 101; 102].      (* "abc def" *)
 Definition a_nl_nl_b : str := [97; 10; 10; 98].                    (* "a\n\nb" *)
-Definition ab_nl_cd : str := [97; 98; 10; 99; 100].                (* "ab\ncd" *)
 Definition del : opk := OpDelete true false.
 
-(* F x with no x before the cursor: "abc def" -> "abc dbc def" *)
-Lemma failed_backward_find_refuted : ~ failed_noop (T_F 120) del.
-Proof. refute abc_def 0 1 (mk1 0). Qed.
-Lemma failed_backward_till_refuted : ~ failed_noop (T_T 120) del.
-Proof. refute abc_def 0 1 (mk1 0). Qed.
-(* f x / t x with no x after the cursor: deletes "ef" *)
-Lemma failed_forward_find_refuted : ~ failed_noop (T_f 120) del.
-Proof. refute abc_def 6 1 (mk1 0). Qed.
-Lemma failed_forward_till_refuted : ~ failed_noop (T_t 120) del.
-Proof. refute abc_def 6 1 (mk1 0). Qed.
-(* ; and , with no previous character find, or no further occurrence *)
-Lemma failed_repeat_find_refuted : ~ failed_noop (T_repeat false false 120 false) del.
-Proof. refute abc_def 6 1 (mk1 0). Qed.
-Lemma failed_repeat_find_rev_refuted : ~ failed_noop (T_repeat true true 120 false) del.
-Proof. refute abc_def 0 1 (mk1 0). Qed.
-(* b / B at the start of the buffer *)
-Lemma backward_word_at_start_refuted : ~ failed_noop (T_b false) del.
-Proof. refute abc_def 0 1 (mk1 0). Qed.
-Lemma backward_WORD_at_start_refuted : ~ failed_noop (T_b true) del.
-Proof. refute abc_def 0 1 (mk1 0). Qed.
-(* h in column 0: "ab cd" -> "ab b cd" *)
-Lemma left_at_line_start_refuted : ~ failed_noop T_h del.
-Proof. refute [97; 98; 32; 99; 100] 0 1 (mk1 0). Qed.
-(* l / $ / w on an empty line: deletes "a\n\n" *)
-Lemma right_on_empty_line_refuted : ~ failed_noop T_l del.
-Proof. refute a_nl_nl_b 2 1 (mk1 0). Qed.
-Lemma end_of_line_on_empty_line_refuted : ~ failed_noop T_dollar del.
-Proof. refute a_nl_nl_b 2 1 (mk1 0). Qed.
-Lemma word_forward_at_end_refuted : ~ failed_noop (T_w false) del.
-Proof. refute [97; 10] 2 1 (mk1 0). Qed.
-(* 0 / ^ / | already in that column: "ab\ncd" at 'c' deletes "b\nc" *)
-Lemma start_of_line_at_col0_refuted : ~ failed_noop T_zero del.
-Proof. refute ab_nl_cd 3 1 (mk1 0). Qed.
-Lemma soft_start_of_line_refuted : ~ failed_noop T_caret del.
-Proof. refute ab_nl_cd 3 1 (mk1 0). Qed.
-Lemma column_same_refuted : ~ failed_noop T_bar del.
-Proof. refute ab_nl_cd 3 1 (mk1 0). Qed.
 (* e / E / ge / gE with no such word end: the inclusive default removes one character *)
 Lemma word_end_failed_refuted : ~ failed_noop (T_e false) del.
-Proof. refute [97; 98] 1 1 (mkto 0 0 INCL). Qed.
+Proof. refute [97; 98] 1 1 false (mkto 0 0 INCL). Qed.
 Lemma word_end_backward_failed_refuted : ~ failed_noop (T_ge false) del.
-Proof. refute [97; 98] 0 1 (mkto 0 0 INCL). Qed.
-(* g_ on a blank line reaches back over the previous line ending *)
+Proof. refute [97; 98] 0 1 false (mkto 0 0 INCL). Qed.
+(* g_ on a blank line: the line ending under the cursor is removed *)
 Lemma last_non_blank_on_blank_line_refuted : ~ failed_noop T_g_ del.
-Proof. refute a_nl_nl_b 2 1 (mkto (-1) 0 INCL). Qed.
+Proof. refute a_nl_nl_b 2 1 false (mkto 0 0 INCL). Qed.
 (* j on the last line / k on the first line: the current line is deleted *)
 Lemma down_on_last_line_refuted : ~ failed_noop T_j del.
-Proof. refute [97; 98] 0 1 (mkto 0 0 LINEW). Qed.
+Proof. refute [97; 98] 0 1 false (mkto 0 0 LINEW). Qed.
 Lemma up_on_first_line_refuted : ~ failed_noop T_k del.
-Proof. refute [97; 98] 0 1 (mkto 0 0 LINEW). Qed.
-(* text objects that are not there: iw on a blank, i( outside brackets, a quote object without quotes *)
-Lemma word_object_on_blank_refuted : ~ failed_noop (T_word false false) del.
-Proof. refute [32] 0 1 (mkto 0 0 EXCL). Qed.
-Lemma bracket_object_absent_refuted : ~ failed_noop (T_ci 40 41 true) del.
-Proof. refute [97] 0 1 (mk1 0). Qed.
-Lemma quote_object_absent_refuted : ~ failed_noop (T_ci 34 34 false) del.
-Proof. refute [97] 0 1 (mk1 0). Qed.
-(* di( on "()" : the empty inner object deletes the brackets *)
-Lemma empty_inner_bracket_refuted : ~ failed_noop (T_ci 40 41 true) del.
-Proof. refute [40; 41] 0 1 (mkto 1 1 EXCL). Qed.
-(* { at the start, } at the end, ap on an empty buffer line *)
-Lemma paragraph_back_at_start_refuted : ~ failed_noop T_lbrace del.
-Proof. refute [97] 0 1 (mk1 0). Qed.
-Lemma paragraph_forward_at_end_refuted : ~ failed_noop T_rbrace del.
-Proof. refute [97; 10] 2 1 (mk1 0). Qed.
-(* % with a count above 100 *)
-Lemma percent_out_of_range_refuted : ~ failed_noop T_percent del.
-Proof. refute [97; 98] 0 101 (mk1 0). Qed.
-
-(* the other operators on a failed motion *)
-Lemma failed_find_yank_refuted : ~ failed_noop (T_f 120) OpYank.        (* clipboard := "ef" *)
-Proof. refute abc_def 6 1 (mk1 0). Qed.
-Lemma failed_find_change_refuted : ~ failed_noop (T_F 120) (OpDelete false false).
-Proof. refute abc_def 0 1 (mk1 0). Qed.
-Lemma failed_find_indent_refuted : ~ failed_noop (T_F 120) OpIndent.    (* the cursor line is indented *)
-Proof. refute abc_def 0 1 (mk1 0). Qed.
+Proof. refute [97; 98] 0 1 false (mkto 0 0 LINEW). Qed.
+(* the line operators act on the cursor line whatever the motion did *)
+Lemma failed_find_indent_refuted : ~ failed_noop (T_F 120) OpIndent.
+Proof. refute abc_def 0 1 false (mk1 0). Qed.
 Lemma failed_find_unindent_refuted : ~ failed_noop (T_F 120) OpUnindent.
-Proof. refute [32; 97] 1 1 (mk1 0). Qed.
+Proof. refute [32; 97] 1 1 false (mk1 0). Qed.
 Lemma failed_find_reshape_refuted : ~ failed_noop (T_F 120) OpReshape.  (* a newline is appended *)
-Proof. refute abc_def 6 1 (mk1 0). Qed.
+Proof. refute abc_def 6 1 false (mk1 0). Qed.
+(* the case operators on the inclusive / linewise defaults *)
 Lemma failed_word_end_transform_refuted : ~ failed_noop (T_e false) (OpTransform 3).
-Proof. refute [97; 98] 1 1 (mkto 0 0 INCL). Qed.
+Proof. refute [97; 98] 1 1 false (mkto 0 0 INCL). Qed.
 Lemma failed_down_transform_refuted : ~ failed_noop T_j (OpTransform 3).
-Proof. refute [97; 98] 0 1 (mkto 0 0 LINEW). Qed.
-
-(* what does hold: the case operators ignore a failed EXCLUSIVE motion *)
-Lemma excl0_failed v o : excl0 v = TO o true -> o = mk1 0.
-Proof.
-  unfold excl0. intros H.
-  assert (Hv : (v =? 0) = true) by congruence.
-  assert (Ho : mk1 v = o) by congruence.
-  rewrite <- Ho. f_equal. lia.
-Qed.
-
-Lemma if_match_failed m g t o : if_match m g t = TO o true -> o = mk1 0.
-Proof.
-  unfold if_match. destruct m as [v|].
-  - destruct (v =? 0); intros H; [congruence|discriminate].
-  - intros H; congruence.
-Qed.
-
-Lemma transform_noop_of_excl m :
-  (forall d n o, text_object m d n = TO o true -> o = mk1 0) ->
-  forall f, failed_noop m (OpTransform f).
-Proof.
-  intros Hm f text cur n keys o _ _ Ht. rewrite (Hm _ _ _ Ht).
-  cbn [run_op]. rewrite op_transform_failed_excl. cbn [fst snd st_of vbuf vclip vreg].
-  repeat split; reflexivity.
-Qed.
-
-Lemma transform_failed_find_noop ch f :
-  failed_noop (T_f ch) (OpTransform f) /\ failed_noop (T_F ch) (OpTransform f) /\
-  failed_noop (T_t ch) (OpTransform f) /\ failed_noop (T_b false) (OpTransform f) /\
-  failed_noop (T_b true) (OpTransform f) /\ failed_noop T_h (OpTransform f) /\
-  failed_noop T_l (OpTransform f) /\ failed_noop T_dollar (OpTransform f) /\
-  failed_noop T_zero (OpTransform f) /\ failed_noop T_caret (OpTransform f) /\
-  failed_noop T_bar (OpTransform f) /\ failed_noop (T_w false) (OpTransform f) /\
-  failed_noop (T_w true) (OpTransform f).
-Proof.
-  repeat apply conj; apply transform_noop_of_excl; intros d n o; cbn [text_object];
-    first [apply excl0_failed | apply if_match_failed].
-Qed.
+Proof. refute [97; 98] 0 1 false (mkto 0 0 LINEW). Qed.
